@@ -120,6 +120,13 @@ def gen_history(rng, hid, confirm=False):
                              "permute": (b > 0 and rng.random() < 0.5),
                              # the other documented entry point of an append: ParquetFile.write_row_groups
                              "via": ("write_row_groups" if (b > 0 and not h["index"] and rng.random() < 0.3) else "write")})
+    dtcols = [c for c in cols if c["kind"] in ("dt_ms", "dt_us", "dt_ns", "dttz_us", "dttz_ns")]
+    if dtcols and not confirm and rng.random() < 0.5:
+        # the same column in ANOTHER datetime unit in one appended batch: the library may refuse it (another dtype), but if it ACCEPTS
+        # the append the rows must read back intact (whole microseconds are generated for ns data half of the time)
+        b = rng.choice(h["batches"][1:])
+        b["dt_unit"] = {c["name"]: rng.choice([u for u in ("ms", "us", "ns") if u != c["kind"].split("_")[1]]) for c in dtcols}
+        b["dt_whole_us"] = rng.random() < 0.5
     if not h["index"] and not confirm and rng.random() < 0.3:
         # from this step on EVERY append of the history goes through ONE long-lived ParquetFile handle (pf.write_row_groups), which is
         # also read after each of them: state the handle keeps about the dataset has to follow what it wrote itself
@@ -134,6 +141,12 @@ def gen_history(rng, hid, confirm=False):
                 # (with rows to write the first three file calls of a multi-file append belong to its first part file; an append of
                 # no rows goes straight to the summary files, whose rewrite is outside the property)
                 b["failed_first"] = {"mode": "io", "k": rng.choice([1, 2, 3])}
+    if scheme != "simple" and not confirm and h.get("handle_from") is None and rng.random() < 0.2:
+        # the append target has NO summary file (datasets of other tools, e.g. dask's default; summary files lost while copying): before
+        # one of the appends _metadata (and / or _common_metadata) is deleted; such a directory is a legal dataset (opened by listing)
+        h["drop_summary"] = {"step": rng.randrange(1, nb), "what": rng.choice(["_metadata", "both", "both", "_common_metadata"])}
+        for b in h["batches"]:
+            b["row_group_offsets"] = None if b["row_group_offsets"] is None or isinstance(b["row_group_offsets"], int) else b["row_group_offsets"][:2]
     if scheme == "simple" and not confirm and rng.random() < FAULT_SHARE:
         # I/O fault injection at EVERY call (open, read of the old footer, every write incl. the new footer, close) of one append
         h["fault_step"] = rng.randrange(1, nb)
@@ -171,7 +184,12 @@ def build_batch(h, i):
             data[c["name"]] = pd.Series(pd.Categorical.from_codes(codes, categories=lab), name=c["name"])
         else:
             cs = dict(c, seed=e["seed"], nulls=e["nulls"])
-            data[c["name"]] = F.col_values(cs, n)
+            if c["name"] in (b.get("dt_unit") or {}):
+                cs["kind"] = c["kind"].split("_")[0] + "_" + b["dt_unit"][c["name"]]
+            col = F.col_values(cs, n)
+            if c["name"] in (b.get("dt_unit") or {}) and b.get("dt_whole_us") and cs["kind"].endswith("_ns"):
+                col = col.dt.floor("us")
+            data[c["name"]] = col
     prng = random.Random(b["pseed"])
     if "pk" in h["partition_on"]:
         data["pk"] = pd.Series(np.array([prng.choice([0, 1, 2]) for _ in range(n)], dtype="int64"))
@@ -320,6 +338,20 @@ def failed_operation(handle, ff, df, akw, root, target, expected, with_index):
     if out["raised"] is None:
         out["problem"] = ["failing-operation-returned-normally", "an append whose %s fails returned normally" % (
             "data source" if ff["mode"] == "source" else "file call number %s" % ff.get("k"))]
+        return out
+    def fresh_state():
+        fr = ParquetFile(target)
+        return [[rg.columns[0].file_path for rg in fr.fmd.row_groups], int(fr.fmd.num_rows), len(fr.row_groups), int(fr.count())]
+    s2_, fst = dsfs.guarded(fresh_state, READ_TIMEOUT)
+    try:
+        mine = [[rg.columns[0].file_path for rg in handle.fmd.row_groups], int(handle.fmd.num_rows), len(handle.row_groups), int(handle.count())]
+    except BaseException as e:      # noqa
+        mine = "%s: %s" % (type(e).__name__, str(e)[:100])
+    if s2_ == "ok" and mine != fst:
+        # DsHandle.v: after a failed operation the handle's state is the state before it = a fresh open's
+        out["problem"] = ["handle-metadata-differs-after-failed-operation",
+                          "after the failed operation (%s) the handle has [row-group paths, fmd.num_rows, len(row_groups), count()] = %s, a fresh open %s" % (
+                              out["raised"], str(mine)[:200], str(fst)[:200])]
         return out
     s_, val = dsfs.guarded(lambda: frame_cells(ParquetFile(target).to_pandas(), with_index), READ_TIMEOUT)
     if s_ != "ok" or val != expected:
@@ -554,6 +586,23 @@ def run_history(arg):
                     ranges = old_chunk_ranges(pf_b)
                     refs_b = []
                 else:
+                    ds_ = h.get("drop_summary")
+                    if ds_ and ds_["step"] == i:
+                        for nm in ([dsfs.MD, dsfs.CMD] if ds_["what"] == "both" else [ds_["what"]]):
+                            if os.path.exists(os.path.join(target, nm)):
+                                os.remove(os.path.join(target, nm))
+                        st["dropped_summary"] = ds_["what"]
+                        if ds_["what"] != dsfs.CMD:
+                            # without _metadata the row groups come in file-listing order: what the dataset holds NOW is the baseline
+                            s0_, v0_ = dsfs.guarded(lambda: frame_cells(ParquetFile(target).to_pandas(), bool(h["index"])), READ_TIMEOUT)
+                            if s0_ != "ok":
+                                st["problems"].append(("unreadable", "the directory without %s cannot be opened / read: %s" % (ds_["what"], v0_)))
+                                out["steps"].append(st)
+                                break
+                            if sorted(map(repr, zip(*[v for _, v in v0_]))) != sorted(map(repr, zip(*[v for _, v in expected]))):
+                                st["problems"].append(("values-differ", "the directory without %s does not hold the rows written so far" % ds_["what"]))
+                            expected = v0_
+                            expected_before = expected
                     snap_b = dsfs.snapshot(target)
                     pf_b = ParquetFile(target)
                     refs_b = dsfs.refs_of(pf_b)
@@ -577,6 +626,14 @@ def run_history(arg):
                                     st["problems"].append(tuple(st["failed_first"]["problem"]))
                             handle.write_row_groups(df, row_group_offsets=akw.get("row_group_offsets"), compression=akw["compression"],
                                                     open_with=rec.open_with, mkdirs=rec.mkdirs)
+                        elif st.get("dropped_summary"):
+                            # (opening a directory by listing needs a file system object: open_with = the bound open of one)
+                            fso = dsfs.rec_fs(rec).open
+                            if h["batches"][i].get("via") == "write_row_groups":
+                                ParquetFile(target, open_with=fso).write_row_groups(
+                                    df, row_group_offsets=akw.get("row_group_offsets"), compression=akw["compression"], open_with=fso, mkdirs=rec.mkdirs)
+                            else:
+                                write(target, df, append=True, open_with=fso, mkdirs=rec.mkdirs, **akw)
                         elif h["batches"][i].get("via") == "write_row_groups":
                             ParquetFile(target, open_with=rec.open_with).write_row_groups(
                                 df, row_group_offsets=akw.get("row_group_offsets"), compression=akw["compression"],
@@ -588,6 +645,13 @@ def run_history(arg):
                         st["tb"] = traceback.format_exc()[-800:]
                 st["trace"] = rec.trace if not simple else [c if c[0] != "write" else ("write", c[1], b"") for c in rec.trace]
                 st["refs_before"] = refs_b
+                if raised and h["batches"][i].get("dt_unit"):
+                    # a column in another datetime unit is another dtype: refusing the append is legitimate (the history ends here)
+                    st["raised"] = raised
+                    st["mixed_unit"] = "refused"
+                    out["outcome"] = "mixed-unit-append-refused"
+                    out["steps"].append(st)
+                    break
                 if raised:
                     # every generated batch has the columns and dtypes of the first write: the append has to be accepted
                     # (what a refused append leaves behind is C18's subject); the history ends here
@@ -788,6 +852,7 @@ def run(ctx):
                                    "foreign": round(sum(t for t, i in tw if by_id[i].get("foreign")), 1),
                                    "fault": round(sum(t for t, i in tw if by_id[i].get("fault_step")), 1)}
     cmds, meta = [], []
+    deferred, cat_match = [], {}
     mono_seen, mono_bad = [0], []
     for res in results:
         h = by_id[res["id"]]
@@ -807,6 +872,11 @@ def run(ctx):
             if i > 0:
                 ctx.count("entry_point", h["batches"][i].get("via", "write") + ("+permuted columns" if h["batches"][i].get("permute") else ""))
             short = {"history": h["id"], "scheme": h["scheme"], "step": i}
+            if i > 0 and h["batches"][i].get("dt_unit"):
+                ctx.count("datetime_column_appended_in_another_unit", "%s: %s" % (
+                    ",".join(sorted(set(h["batches"][i]["dt_unit"].values()))), "refused" if st.get("mixed_unit") else "accepted"))
+            if st.get("dropped_summary"):
+                ctx.count("append_target_without_summary_file", "%s deleted before the append (%s)" % (st["dropped_summary"], h["scheme"]))
             if "raised" in st:
                 ctx.count("refused", st["raised"][:60])
             if st.get("failed_first"):
@@ -819,8 +889,15 @@ def run(ctx):
                         d_[k_] = d_.get(k_, 0) + n_
                 ctx.extra["fault_runs"] = ctx.extra.get("fault_runs", 0) + st["faults"]["runs"]
             for sym, text in st["problems"]:
-                ctx.fail(classify(h, st, sym), {"history": h, "failing_step": i, "observed": text,
-                                                "trace": dsfs.trace_json(st.get("trace", []), 120)}, text)
+                cls = classify(h, st, sym)
+                case_ = {"history": h, "failing_step": i, "observed": text, "trace": dsfs.trace_json(st.get("trace", []), 120)}
+                if sym == "values-differ" and cls["kind"] in CAT_KINDS and cls["new_labels"]:
+                    # a categorical column whose batches carry different label lists: whether this is the KNOWN wrong behaviour (every row
+                    # group's codes read with the LAST dictionary: Dataset/CatRead.v read_cat) or another one is decided once the model has
+                    # answered - only the former is covered by the open finding
+                    deferred.append((cls, case_, text, (h["id"], i, st.get("bad_column"))))
+                else:
+                    ctx.fail(cls, case_, text)
             for name, obs in (st.get("cat") or {}).items():
                 if any(d is not None for d, _ in obs["chunks"]):
                     chunks, real = cat_model_io(obs)
@@ -881,8 +958,12 @@ def run(ctx):
             continue
         if kind == "cat":
             ctx.count("categorical_reads", "dictionaries differ" if short["dictionaries_differ"] else "one dictionary")
-            ctx.correspondence("CatRead.read_cat(per-row-group dictionaries and codes) = categorical column of the whole read", short,
-                               [list(x) for x in o] if isinstance(o, list) else o, st)
+            mo_ = [list(x) for x in o] if isinstance(o, list) else o
+            cat_match[(short["history"], short["step"], short["column"])] = (mo_ == st)
+            if (short["history"], short["step"], short["column"]) not in [d_[3] for d_ in deferred]:
+                ctx.correspondence("CatRead.read_cat(per-row-group dictionaries and codes) = categorical column of the whole read", short, mo_, st)
+            else:
+                ctx.count("categorical_failures", "output = the relabelling model" if mo_ == st else "output differs from the relabelling model, too")
             continue
         if kind == "strict":
             # information: the stricter relation `safe_trace` (_metadata before _common_metadata), which the code implements today
@@ -910,6 +991,11 @@ def run(ctx):
             seq_model["equal" if same else "different"] += 1
             if not same and len(seq_model["examples"]) < 3:
                 seq_model["examples"].append({"case": short, "model": str(model)[:200], "real": [st["loc"], len(st["after"])]})
+    for cls, case_, text, key in deferred:
+        cls["as_relabel_model"] = bool(cat_match.get(key, True))      # (no model answer - more than 12 row groups: counted as the known behaviour)
+        if not cls["as_relabel_model"]:
+            text += " [the values are NOT what reading every row group with the last dictionary gives either: not the known relabelling]"
+        ctx.fail(cls, case_, text)
     ctx.extra["strict_safe_trace_on_recorded_traces"] = strict
     ctx.extra["safe_trace_sym_on_recorded_traces"] = sym_info
     ctx.extra["append_seq_model_vs_real_bytes"] = seq_model
